@@ -555,8 +555,15 @@ func (e *Env) call(c *ECall) TV {
 	case "at":
 		label := exprKey(c.Args[0])
 		h, ok := e.snaps[label]
+		if !ok && e.fr != nil && e.fr.snaps != nil {
+			h, ok = e.fr.snaps[label]
+		}
 		if !ok {
-			sfail("unknown snapshot %q", label)
+			// the labelled point was not reached on this path: an arbitrary state
+			h = map[string]Term{}
+			for name, t := range e.st.heap {
+				h[name] = e.x.freshNamed(name+"!"+label, t.Sort)
+			}
 		}
 		return e.withHeap(h, func() TV { return e.eval(c.Args[1]) })
 	case "ite":
@@ -607,6 +614,28 @@ func (e *Env) call(c *ECall) TV {
 		now := st.comp("N!"+sanitize(key), SI)
 		old := e.oldComp("N!"+sanitize(key), SI)
 		return TV{Sub(now, old), nil}
+	case "ts":
+		// ts(K, i): global sequence number of the i-th call of K since the old state
+		key := exprKey(c.Args[0])
+		base := e.oldComp("N!"+sanitize(key), SI)
+		arr := st.comp("TS!"+sanitize(key), ArrSort(SI, SI))
+		return TV{Sel(arr, Add(base, e.intTerm(c.Args[1]))), nil}
+	case "atomicval":
+		p := e.eval(c.Args[0])
+		pr, ok := p.V.(*PRef)
+		if !ok {
+			sfail("atomicval() needs a struct field")
+		}
+		comp := st.comp("AT!"+typeName(pr.Root)+"!"+fieldNameAt(pr.Root, pr.Path), ArrSort(SI, SI))
+		return TV{Sel(comp, pr.Ref), nil}
+	case "held":
+		p := e.eval(c.Args[0])
+		pr, ok := p.V.(*PRef)
+		if !ok {
+			sfail("held() needs a struct field")
+		}
+		comp := st.comp("MU!"+typeName(pr.Root)+"!"+fieldNameAt(pr.Root, pr.Path), ArrSort(SI, SB))
+		return TV{Sel(comp, pr.Ref), types.Typ[types.Bool]}
 	case "dcalls":
 		// calls made directly by this function (not through callees or the environment)
 		key := exprKey(c.Args[0])
@@ -691,7 +720,8 @@ func (e *Env) call(c *ECall) TV {
 		if fn == nil {
 			sfail("unknown function %s", exprKey(c.Args[1]))
 		}
-		return TV{Eq(cloFn(v), e.x.funcID(fn)), boolT}
+		// a function literal that captures nothing is represented by its function id itself
+		return TV{Or(Eq(cloFn(v), e.x.funcID(fn)), Eq(v, e.x.funcID(fn))), boolT}
 	case "captured":
 		// captured(v, fnkey, name): current value of the variable captured by closure v
 		v := e.toTerm(e.eval(c.Args[0]))
@@ -1036,6 +1066,11 @@ func (x *Exec) evalClauseBool(st *State, fr *Frame, cl *Clause, res []TV, pol in
 	e.locals = cl.Kind == "invariant"
 	e.result = res
 	e.pol = pol
+	if cl.Kind == "invariant" && len(fr.rangeIter) == 1 {
+		for _, rs := range fr.rangeIter {
+			e.vars["visited"] = TV{rs.visited, nil}
+		}
+	}
 	return x.safeBool(e, cl)
 }
 
